@@ -273,12 +273,102 @@ let predict_prop (f : string array) (obs : string) : string * string * bool =
     else "BAD:property-data-wrong" in
   (pred, verdict, true)
 
+(* ---- the option applied to the component (case kind app) *)
+let path_string (p : n list list) : string = String.concat "." (List.map string_of_str p)
+
+(* "hexlabel{v;v},hexlabel{...}" -> (label, values) list; values are compared as text *)
+let parse_groups (s : string) : (string * string list) list =
+  if s = "-" || s = "" then [] else
+  let groups = ref [] and i = ref 0 and n = String.length s in
+  while !i < n do
+    let j = (try String.index_from s !i '{' with Not_found -> n) in
+    if j >= n then begin groups := (String.sub s !i (n - !i), ["?"]) :: !groups; i := n end
+    else begin
+      let label = String.sub s !i (j - !i) in
+      (* values may nest braces / brackets *)
+      let depth = ref 0 and k = ref j and vals = ref [] and start = ref (j + 1) and fin = ref false in
+      while not !fin && !k < n do
+        (match s.[!k] with
+         | '{' | '[' | '<' -> incr depth
+         | '}' | ']' | '>' ->
+             decr depth;
+             if !depth = 0 then begin
+               if !k > !start || !vals <> [] then vals := String.sub s !start (!k - !start) :: !vals;
+               fin := true
+             end
+         | ';' -> if !depth = 1 then begin vals := String.sub s !start (!k - !start) :: !vals; start := !k + 1 end
+         | _ -> ());
+        incr k
+      done;
+      groups := (label, List.rev !vals) :: !groups;
+      i := !k;
+      if !i < n && s.[!i] = ',' then incr i
+    end
+  done;
+  List.rev !groups
+
+let predict_app (f : string array) (obs : string) : string * string * bool =
+  let iface = str_of_hex f.(1) and name = str_of_hex f.(2) in
+  let mut = f.(3) in
+  let (env, prop, orc, orcq) = mk_oracles f.(5) f.(6) f.(7) in
+  let tree = parse_tree f.(8) in
+  match lookup_entry gen_registry iface name with
+  | None -> ("nocomp", "BAD:unknown-component", false)
+  | Some e ->
+    (match e.e_conf with
+     | None -> ("nocomp", "BAD:unknown-component", false)
+     | Some (cs, d) ->
+       let show_groups gs =
+         if gs = [] then "-" else
+         String.concat "," (List.map (fun (label, vals) ->
+           hex_of_str label ^ "{" ^ String.concat ";" (List.map (fun (_, v) ->
+             match v with Some c -> dump c | None -> "?") vals) ^ "}") gs) in
+       let pred =
+         (match decode env prop orc orcq gen_registry model_factory_lazy (fuel_for tree) (SPlugin (iface, N0)) CNil tree with
+          | Ok (CPlugin (_, _, c)) -> "ok a=" ^ show_groups (applied_of gen_applied iface name cs c)
+          | Ok _ -> "ok ?"
+          | Err _ -> "err"
+          | Fuel -> "fuel") in
+       (* the specification on the implementation's answer: what has to arrive at every destination is computed from
+          the written section and the registered default alone (expected_opt), not from the model's decoding of the
+          whole config *)
+       let sec = (match tree with VMap kvs -> VMap (List.filter (fun kv -> not (is_type_key kv)) kvs) | v -> v) in
+       let held = lookup_applied gen_applied iface name in
+       if not (starts_with "ok a=" obs) then
+         ((pred, (if mut = "base" then "BAD:valid-config-rejected" else "ok"), mut = "base"))
+       else begin
+         let og = parse_groups (String.sub obs 5 (String.length obs - 5)) in
+         let bad = ref None and judged = ref 0 in
+         List.iter (fun (label, rules) ->
+           match List.assoc_opt (hex_of_str label) og with
+           | None -> if !bad = None then bad := Some ("held-configuration-missing " ^ string_of_str label)
+           | Some vals ->
+               let exp = expected_group env prop orc orcq gen_registry model_factory_lazy cs d sec rules in
+               if List.length exp <> List.length vals then
+                 (if !bad = None then bad := Some ("held-configuration-shape " ^ string_of_str label))
+               else
+                 List.iter2 (fun (dst, e) o ->
+                   match e with
+                   | Some (Ok c) ->
+                       incr judged;
+                       if dump c <> o && !bad = None then
+                         bad := Some (Printf.sprintf "option-not-applied %s.%s holds %s, the section and the registered default give %s"
+                                        (string_of_str label) (path_string dst)
+                                        (if String.length o > 40 then String.sub o 0 40 else o)
+                                        (let w = dump c in if String.length w > 40 then String.sub w 0 40 else w))
+                   | _ -> ()) exp vals) held;
+         let v = (match !bad with Some b -> "BAD:" ^ b | None -> "ok") in
+         let v = if !oracle_miss && v = "ok" then "BAD:oracle-miss" else v in
+         (pred, v, !judged > 0 || v <> "ok")
+       end)
+
 let predict (c : string) (obs : string) : string * string * bool =
   oracle_miss := false;
   let f = Array.of_list (split_blank c) in
   let kind = f.(0) in
   if kind = "hdr" && Array.length f = 3 then predict_hdr f obs else
   if kind = "prop" && Array.length f = 3 then predict_prop f obs else
+  if kind = "app" && Array.length f = 9 then predict_app f obs else
   let off = if kind = "comp" then 3 else 1 in
   if Array.length f <> off + 6 then ("bad-case", "BAD:bad-case", false) else
   let mut = f.(off) and path = parse_path f.(off + 1) in
